@@ -301,8 +301,9 @@ def r4_query_scope(P, rep, ctx):
     t = mq.x(ast.Module(body=list(mfi.node.body), type_ignores=[])) if False else " ".join(norm(mq.xstmt(st)) for st in mfi.node.body)
     okc = f"self._mc.metador.schemas.versions({sn}, {sv})" in t and "self._mc.metador.schemas.children(" in t and ".intersection(" in t
     comp_ok = False
-    for x in ast.walk(mfi.node):
-        if isinstance(x, ast.GeneratorExp) and len(x.generators) == 1 and norm(x.generators[0].iter) == f"self._mc.metador.schemas.versions({sn}, {sv})" and M.match(f"self._mc.metador.schemas.children({norm(x.generators[0].target)})", x.elt) is not None and not x.generators[0].ifs:
+    for x0 in ast.walk(mfi.node):
+        x = mq.xe(x0) if isinstance(x0, (ast.GeneratorExp, ast.ListComp, ast.SetComp)) else x0
+        if isinstance(x, (ast.GeneratorExp, ast.ListComp, ast.SetComp)) and len(x.generators) == 1 and norm(x.generators[0].iter) == f"self._mc.metador.schemas.versions({sn}, {sv})" and M.match(f"self._mc.metador.schemas.children({norm(x.generators[0].target)})", x.elt) is not None and not x.generators[0].ifs:
             comp_ok = True
     rep.check(okc and comp_ok, "C07.R4", mfi.qual,
               "descendant schemas are those recorded as children of a version-compatible release", mfi.loc(), construct="compatible children", message="MetadorMeta.query does not intersect the attached schemas with children(versions(name, version))")
